@@ -256,6 +256,8 @@ def query_regions(q, forms=None) -> set:
             disj_under_not.append(1)
         if k in ("and", "or", "not", "forall", "nest", "flat", "cat", "fp", "cp"):
             kinds.add(k)
+        if k == "sub":
+            kinds.add("nest")               # a shared sub-query object is a nested query for every region
         if k in ("fp", "cp") and len(t) > 2 and isinstance(t[2], list):
             vs = [repr(_root_var(a)) for a in t[2]]
             vs = [v for v in vs if v != "None"]
@@ -348,7 +350,7 @@ def _vars_in(t):
     def fn(x, under):
         if x[0] == "v":
             out.add(x[1])
-        if x[0] == "nest":
+        if x[0] in ("nest", "sub"):
             out.add(x[1])
     _walk(t, fn)
     return out
